@@ -1,6 +1,5 @@
 PROP = dict(
     id="C18",
-    disabled=True,
     engines=["c18"],
     go_tags=["c18"],
     gen_files={"MM/Gen/C18.lean": "c18"},
@@ -9,6 +8,7 @@ PROP = dict(
         "MM.C18.cap_tie",
         "MM.C18.C18_data_before_eof",
         "MM.C18.C18_fifo",
+        "MM.C18.C18_frames_may_arrive_later",
         "MM.C18.C18_finfirst_loses_data",
         "MM.C18.C18_write_refused_after_local_fin",
         "MM.C18.C18_read_after_local_fin",
@@ -26,7 +26,7 @@ PROP = dict(
     trusted_base=[
         "MM/Model/C18.lean: atomic steps = critical sections / channel operations / select statements of internal/stream/manager.go "
         "(sync.Mutex, sync.Once, channel close and select atomicity are assumed, not modelled)",
-        "the engine appends each delivered frame to the model's `frames` list; everything else is LTS steps",
+        "the engine appends each delivered frame to the model's `frames` list (covered by C18_frames_may_arrive_later); everything else is LTS steps",
         "cap(readBuffer) regenerated from the compiled package on every run (MM/Gen/C18.lean)",
         "scheduling hook internal/verifhook (build tag verif) — fixes/hook-verifhook.patch",
     ],
